@@ -268,6 +268,17 @@ class Q:
     def conjugate(self):
         return self
 
+    def exp(self):
+        return Q(core.uf_app("exp", self.sym().t))
+
+    def log(self):
+        if core.branch((self <= 0).t):
+            raise DomainError("log of a non-positive number")
+        return Q(core.uf_app("log", self.sym().t))
+
+    def sqrt(self):
+        return Q(self.sym().sqrt().t)
+
     def sym(self):
         """plain Sym with a z3 division term."""
         if not self.df:
